@@ -3,10 +3,21 @@ from pyvc.api import *
 import worker as W
 
 PROP = 'C03'
-REPLAYERS = {'pool.Worker.workloop': 'replayers/workloop.py', 'pool.ApplyResult._ack': 'replayers/ack_owner.py'}
+VARIANTS = ['apply', 'map']
+REPLAYERS = {'pool.Worker.workloop': 'replayers/workloop.py', 'pool.ApplyResult._ack': 'replayers/ack_owner.py',
+             'pool.MapResult._ack': 'replayers/kinds_lost.py'}
 
 
-def build(w):
+def build(w, variant='apply'):
+    if variant == 'map':
+        # what the ACK of a chunk records on a map handle (the contract lives with C04's handle kinds)
+        import c04_kinds
+        import pool_shared as ps
+        ps.declare(w, kind='map')
+        items = [c for c in c04_kinds.build_map(w) if c.qualname.endswith('MapResult._ack')]
+        for c in items:
+            c.prop = PROP
+        return items
     # the parent side of the protocol: what the ACK records (C01's contracts of ApplyResult._ack and on_ack)
     import C01 as c01
     parent = [c for c in c01.build(w) if c.qualname.endswith('ApplyResult._ack') or c.qualname.endswith('.on_ack')]
@@ -31,5 +42,7 @@ MANIFEST_ENTRY = {
             'the termination signal (refuted on the pinned tree and replayed: defect D2, fixed).  The parent side is proved with it: ApplyResult._ack '
             'records owner and acceptance time before the accept callback runs (also for a job cancelled before its ACK is '
             'handled), and on_ack attributes the ACK to the job named in it.',
-    'note': 'Externals (queue receive/put, task code) are assumed contracts; message order per worker is assumed FIFO.',
+    'note': 'The ACK of a map chunk (variant map: MapResult._ack) records the accepting worker and the time for exactly the items '
+            'of that chunk -- the last one may be shorter -- and keeps the per-item lists as long as the job.  '
+            'Externals (queue receive/put, task code) are assumed contracts; message order per worker is assumed FIFO.',
 }
